@@ -275,3 +275,7 @@ from props import workbench as WB   # noqa: E402
 
 CLAUSES.append(Clause("object_history", WB.cfg_programs, WB.run_cfg, quick=300, thorough=3000, rule="(conversion phases applied to grammar objects with a history) " + WB.CFG_RULE))
 KNOWN_PREDICATES = {}
+
+# coverage-guided second driver (atheris / libFuzzer through Hypothesis' fuzz_one_input) for the core clauses: (clause, quick runs, thorough runs)
+from harness.covfuzz import cov_clauses  # noqa: E402
+CLAUSES += cov_clauses('C08', CLAUSES, [('phase', 2000, 40000), ('to_chomsky', 1500, 30000)])
